@@ -184,6 +184,8 @@ def rand_schedule(rnd, T, n_groups, cfg):
 def grad_for(torch, gen, shape, dtype, kind, scale):
     """one gradient tensor of the stream (float64 draw, cast to the parameter dtype)"""
     D = torch.float64
+    if float(torch.rand((), generator=gen)) < 0.04:
+        return torch.zeros(shape, dtype=dtype)  # a gradient that is present but identically zero
     if kind == "lowrank" and len(shape) >= 2 and math.prod(shape) > 1:
         vs = [torch.randn(s, generator=gen, dtype=D) for s in shape]
         g = vs[0]
